@@ -220,6 +220,7 @@ type World struct {
 	C        *column.Collection
 	M        *Model
 	Commits  []commit.Commit // every commit emitted so far (deep copies), emission order
+	Emitters []int           // scheduler thread that emitted each commit (codec/log loggers only)
 	Clock    *time.Time      // virtual clock (shared with twins)
 	Daemon   *vsched.Daemon
 	TrigLog  map[string]*[]TrigEvent
@@ -265,6 +266,7 @@ func (l recLogger) Append(c commit.Commit) error {
 			return err
 		}
 		l.w.Commits = append(l.w.Commits, out)
+		l.w.Emitters = append(l.w.Emitters, vsched.Self())
 	case "log":
 		var b bytes.Buffer
 		lg := commit.Open(&b)
@@ -275,6 +277,7 @@ func (l recLogger) Append(c commit.Commit) error {
 		n := 0
 		err := commit.Open(&b).Range(func(out commit.Commit) error {
 			l.w.Commits = append(l.w.Commits, out)
+			l.w.Emitters = append(l.w.Emitters, vsched.Self())
 			n++
 			return nil
 		})
@@ -735,8 +738,30 @@ func (p *pending) blocks() []uint32 {
 
 // ApplyPending applies the effects of a committed transaction to the model in the
 // documented order: row markers first, then column writes in issue order.
-func (w *World) ApplyPending(p *pending) {
-	m := w.M
+func (w *World) ApplyPending(p *pending) { w.ApplyPendingTo(w.M, p, nil) }
+
+// ApplyPendingTo applies the effects to model m; with only != nil just the part
+// that lies in the listed blocks (a multi-block transaction commits block by block).
+func (w *World) ApplyPendingTo(m *Model, p *pending, only map[uint32]bool) {
+	if only != nil {
+		q := &pending{}
+		for _, o := range p.ins {
+			if only[o>>14] {
+				q.ins = append(q.ins, o)
+			}
+		}
+		for _, o := range p.del {
+			if only[o>>14] {
+				q.del = append(q.del, o)
+			}
+		}
+		for _, x := range p.writes {
+			if only[x.off>>14] {
+				q.writes = append(q.writes, x)
+			}
+		}
+		p = q
+	}
 	for _, off := range p.del {
 		if r, ok := m.Live[off]; ok {
 			for col, v := range r.V {
